@@ -175,6 +175,11 @@ func (rm *RpcMultiplexer) NewStreamReadWriter(
 					if err := rm.readErrorIfDone(); err != nil {
 						return nil, err
 					}
+					// teardown after a cancellation closes the queue too: report
+					// the context's error (Canceled / DeadlineExceeded) then
+					if err := ctx.Err(); err != nil {
+						return nil, err
+					}
 					return nil, fmt.Errorf("respChan closed")
 				}
 				return rpc, nil
